@@ -65,7 +65,22 @@ impl<'t, 'a> FlowGen<'t, 'a> {
     fn cond(&mut self, loop_level: usize) -> Expr {
         let v = self.vals[self.t.pick(self.vals.len())].clone();
         let w = self.vals[self.t.pick(self.vals.len())].clone();
-        match self.t.weighted(&[20, 10, 8, 8, 8, 16, 6, 6, 5, 5]) {
+        match self.t.weighted(&[20, 10, 8, 8, 8, 16, 6, 6, 5, 5, 8, 8]) {
+            10 => {
+                // a logical operator with a list of operands: folded left like any list, `(v nor w) nor u`
+                let u = self.vals[self.t.pick(self.vals.len())].clone();
+                let op = *self.t.choose(&[BinOp::Nor, BinOp::Nor, BinOp::And, BinOp::Or]);
+                let mut rhs = vec![var(&w), var(&u)];
+                if self.t.chance(1, 3) {
+                    rhs.push(self.any_lit());
+                }
+                Expr::Binary { op, lhs: Box::new(var(&v)), rhs }
+            }
+            11 => {
+                // a value of whatever kind ordered against a number: a runtime error for the kinds that have no order
+                let op = *self.t.choose(&[BinOp::Less, BinOp::LessEq, BinOp::Greater, BinOp::GreaterEq]);
+                bin(op, var(&v), num(self.t.pick(4) as f64))
+            }
             8 => {
                 // a condition that makes progress by itself: the head of the queue, removed by the test
                 self.side_effect_cond = true;
